@@ -1210,6 +1210,41 @@ func (g *genr) write(hd uint64) {
 	}
 }
 
+// writeVal: a call that goes through the validator objects, the withdraw queue or the staking records
+func (g *genr) writeVal(hd uint64) {
+	st := g.e.hs[hd]
+	if st == nil {
+		return
+	}
+	id := uint64(1 + g.r.Intn(3))
+	switch k := g.r.Intn(100); {
+	case k < 20:
+		if g.removed[hd] == 0 && !g.anyBigInvalid(hd) {
+			g.removed[hd]++
+			g.do(Op{K: "removeval", H: hd, A: id})
+		}
+	case k < 50:
+		g.do(Op{K: "updateval", H: hd, Val: g.mutateVal(hd, id)})
+	case k < 62:
+		g.do(Op{K: "createval", H: hd, Val: g.newValRecOn(hd, id, g.removed[hd] > 0)})
+	case k < 76:
+		g.do(Op{K: "delegate", H: hd, A: uint64(1 + g.r.Intn(3)), B: id, V: new(big.Int).Mul(unit, big.NewInt(int64(1+g.r.Intn(2)))).String()})
+	case k < 86:
+		g.do(Op{K: "addwithdraw", H: hd, Rec: g.wrec()})
+	case k < 92:
+		n := len(st.GetWithdrawQueue().Records)
+		var idx []uint64
+		for i := 0; i < n; i++ {
+			if g.r.Chance(50) {
+				idx = append(idx, uint64(i))
+			}
+		}
+		g.do(Op{K: "removewithdraws", H: hd, Idx: idx})
+	default:
+		g.do(Op{K: "addsrec", H: hd, A: uDlg[g.r.Intn(len(uDlg))], B: id, C: uint64(1 + g.r.Intn(3)), Some: true, V: g.amt()})
+	}
+}
+
 func (g *genr) del() bool { return !g.r.Chance(25) }
 
 // commitReopen: Commit, read, reopen from the roots, read again; reopened == live.
@@ -1515,6 +1550,24 @@ func (g *genr) tIndep() {
 // must show what its twin shows, commit to its twin's roots and reopen to the same.
 func (g *genr) tBoth() {
 	d := uint64(1 + g.r.Intn(2))
+	wide := g.r.Chance(50)
+	if wide {
+		// a base with dirty validators, withdraw records, staking records ...
+		g.prefix(0, 3+g.r.Heavy(24))
+		for id := uint64(1); id <= 3; id++ {
+			if g.r.Chance(70) {
+				v := g.newValRecOn(0, id, true)
+				if v.Token == "0" {
+					v.Token, v.Stake = "1000000000000000000", "1"
+					v.Rest[5], v.Rest[6] = v.Token, v.Stake
+				}
+				g.do(Op{K: "createval", H: 0, Val: v})
+			}
+		}
+		if g.r.Bool() {
+			g.do(Op{K: "addwithdraw", H: 0, Rec: g.wrec()})
+		}
+	}
 	g.do(Op{K: "setbalance", H: 0, A: d, V: "1000"})
 	if g.r.Bool() {
 		g.do(Op{K: "setbalance", H: 0, A: 3 - d, V: "7"})
@@ -1539,9 +1592,8 @@ func (g *genr) tBoth() {
 		g.do(Op{K: "view", H: hd})
 		g.do(Op{K: "setnonce", H: hd, A: d, B: uint64(1 + g.r.Intn(5))})
 	}
-	if g.r.Chance(85) {
-		g.do(Op{K: "finalise", H: hd, Del: true})
-	}
+	// the copy is taken at a transaction boundary
+	g.do(Op{K: "finalise", H: hd, Del: true})
 	if g.r.Chance(30) {
 		g.do(Op{K: "iroot", H: hd, Del: true})
 	}
@@ -1552,6 +1604,16 @@ func (g *genr) tBoth() {
 	t1, t2 := g.fresh(), g.fresh()
 	g.do(Op{K: "reopen", H: c0, H2: t1})
 	g.do(Op{K: "reopen", H: c0, H2: t2})
+	twinsOk := false
+	guard(func() {
+		twinsOk = content(view(g.e.hs[hd])).String() == content(view(g.e.hs[t1])).String()
+	})
+	if !twinsOk {
+		// the side holds something its next flush deletes (an empty validator or account written since
+		// the last flush); the twins, reopened from a commit, do not: nothing to compare
+		g.res.Count("both_twins_differ_at_start")
+		return
+	}
 	c := g.fresh()
 	ci := g.do(Op{K: "copy", H: hd, H2: c})
 	// both sides write the same delegator; mostly validators above every entry
@@ -1560,7 +1622,40 @@ func (g *genr) tBoth() {
 	if g.r.Bool() {
 		hi = []uint64{5, 4}
 	}
+	if wide {
+		// any writes (validators, delegations through UpdateDelegation, withdraw queue, staking
+		// records, accounts, storage, code), interleaved at random between the two sides; each
+		// call goes to the side and to its twin
+		g.res.Count("both_wide")
+		for _, pr := range sides {
+			g.removed[pr[1]] = g.removed[pr[0]]
+		}
+		m := 4 + g.r.Heavy(28)
+		for i := 0; i < m; i++ {
+			pr := sides[g.r.Intn(2)]
+			start := len(g.h.Ops)
+			if g.r.Chance(12) {
+				g.do(Op{K: "finalise", H: pr[0], Del: true})
+			} else if g.r.Chance(5) {
+				g.do(Op{K: "iroot", H: pr[0], Del: true})
+			} else if g.r.Chance(45) {
+				g.writeVal(pr[0])
+			} else {
+				g.write(pr[0])
+			}
+			for _, o := range append([]Op{}, g.h.Ops[start:]...) {
+				o.H = pr[1]
+				if o.K == "delegate" {
+					o.Val, o.Some = nil, false
+				}
+				g.do(o)
+			}
+		}
+	}
 	n := 1 + g.r.Intn(3)
+	if wide {
+		n = 0
+	}
 	for i := 0; i < n; i++ {
 		for si, pr := range sides {
 			var o Op
@@ -1589,7 +1684,7 @@ func (g *genr) tBoth() {
 			g.h.Asserts = append(g.h.Asserts, Assert{Kind: kind, I: i, J: j, Copy: ci, Why: why, Only: "generic"})
 		}
 	}
-	both("eqcontent", "after writes to both sides of a copy a side shows a delegation list its own calls did not build",
+	both("eqcontent", "after writes to both sides of a copy a side shows content its own calls did not build",
 		func(h uint64) int { return g.do(Op{K: "view", H: h}) })
 	// commit both sides in either order, then the twins
 	order := []uint64{hd, c}
@@ -1602,7 +1697,7 @@ func (g *genr) tBoth() {
 	}
 	both("eqroots", "after writes to both sides of a copy a side commits to other roots than the same calls on an unshared state",
 		func(h uint64) int { return rootsAt[h] })
-	both("eqcontent", "after writes to both sides of a copy the committed side shows a delegation list its own calls did not build",
+	both("eqcontent", "after writes to both sides of a copy the committed side shows content its own calls did not build",
 		func(h uint64) int { return g.do(Op{K: "view", H: h}) })
 	both("eqcontent", "after writes to both sides of a copy the reopened side differs from the same calls on an unshared state",
 		func(h uint64) int {
@@ -1615,16 +1710,16 @@ func (g *genr) tBoth() {
 func genHistory(r *vf.Rng, res *vf.Result) *History {
 	g := newGen(r, res)
 	switch k := r.Intn(100); {
-	case k < 30:
+	case k < 28:
 		g.h.Comment = "walk"
 		g.tWalk()
-	case k < 53:
+	case k < 50:
 		g.h.Comment = "perm"
 		g.tPerm()
-	case k < 75:
+	case k < 70:
 		g.h.Comment = "copy"
 		g.tCopy()
-	case k < 87:
+	case k < 82:
 		g.h.Comment = "indep"
 		g.tIndep()
 	default:
@@ -1759,7 +1854,7 @@ func gen(seed uint64, n int, outDir, corpusDir string) {
 	vf.WriteFile(filepath.Join(outDir, "Cases.v"), sb.String())
 	res.Cases = count
 	res.Distinct = len(distinct)
-	res.Rule = "a case is one history over several StateDB handles sharing a database: random writes (accounts, storage, code, delegation lists, validators, statistics, withdraw queue, staking records, pending relationships) with Finalise/IntermediateRoot/Commit at random points and both deleteEmptyObjects flags; templates: random walk, the same cell writes permuted and regrouped on handles reopened from one commit, copy at a chosen point (inside a transaction, after Finalise, after IntermediateRoot, after Commit) followed by the same suffix on both sides, writes to one side of a copy, appends/removals on the delegation list of one live delegator on BOTH sides of a copy against unshared twins reopened from a commit; every call's result (root numbers, full reads of all observed addresses) is compared with the model; non-trivial = has a flush and a copy or reopen; distinct by full history"
+	res.Rule = "a case is one history over several StateDB handles sharing a database: random writes (accounts, storage, code, delegation lists, validators, statistics, withdraw queue, staking records, pending relationships) with Finalise/IntermediateRoot/Commit at random points and both deleteEmptyObjects flags; templates: random walk, the same cell writes permuted and regrouped on handles reopened from one commit, copy at a chosen point (inside a transaction, after Finalise, after IntermediateRoot, after Commit) followed by the same suffix on both sides, writes to one side of a copy, writes to BOTH sides of a copy, interleaved (appends/removals on the delegation list of one live delegator, or any writes: validators, delegations, withdraw queue, staking records, accounts), each side against an unshared twin reopened from a commit; every call's result (root numbers, full reads of all observed addresses) is compared with the model; non-trivial = has a flush and a copy or reopen; distinct by full history"
 	res.Write(filepath.Join(outDir, "result.json"))
 }
 
